@@ -701,7 +701,7 @@ class TemplateSource:
     rally.collect(parts=...
     """
 
-    collect_parts_re = re.compile(r"{{\s*rally\.collect\(parts=(?P<quote>[\"'])(?P<parts>.+?)(?P=quote)\)\s*}}")
+    collect_parts_re = re.compile(r"{{\s*rally\.collect\(\s*parts\s*=\s*(?P<quote>[\"'])(?P<parts>.+?)(?P=quote)\s*\)\s*}}")
 
     def __init__(self, base_path, template_file_name, source=io.FileSource, fileglobber=glob.glob):
         self.base_path = base_path
